@@ -16,6 +16,7 @@
 //!                       start_gossip_loop_with_actor, which address targeted messages through a
 //!                       peer map of their own (a local of the loop): every peer is a loopback
 //!                       TCP listener, the frames each one receives are compared with the oracle
+//!   route_during_join   a batch queued while another thread write-locks the shared ring
 //!   gossip_server_receive the receiving half: the real GossipManager::start_server on a loopback
 //!                       port, a generated sequence of frames of very different sizes over ONE
 //!                       persistent connection (as the sender loops use it); the delta callback
@@ -1362,6 +1363,79 @@ fn check_manager_case(c: &ManagerCase, ctx: &mut CaseCtx<'_>) -> Result<(), Stri
 }
 
 // ---------------------------------------------------------------------------------------
+// (4b) routing while the shared ring is write-locked by a membership change
+// ---------------------------------------------------------------------------------------
+
+#[derive(Clone, Debug, Serialize, Deserialize)]
+struct LockedCase {
+    ids: Vec<u64>,
+    vnodes: u32,
+    rf: usize,
+    joiner: u64,
+    batch: Vec<u16>,
+}
+
+/// Another thread holds the write lock of the shared `Arc<RwLock<HashRing>>` (a node is
+/// joining) while the sender queues a batch. `route_deltas` consumes the batch, so whatever it
+/// does about the lock, every delta must come out addressed to the owners under the ring
+/// before OR after the join (whichever the router saw) — never to nobody. The 15 ms the writer
+/// keeps the lock only widen the window; the verdict does not depend on timing.
+fn check_locked_case(c: &LockedCase, ctx: &mut CaseCtx<'_>) -> Result<(), String> {
+    let ids = dedup(c.ids.clone());
+    if ids.len() < 2 || ids.contains(&c.joiner) || c.batch.is_empty() {
+        return Ok(());
+    }
+    let sender = ids[0];
+    let before = HashRing::new(rid(&ids), c.vnodes, c.rf);
+    let mut after = before.clone();
+    after.add_node(ReplicaId::new(c.joiner));
+    let ring = Arc::new(RwLock::new(before.clone()));
+    let mut members = ids.clone();
+    members.push(c.joiner);
+    let peers: HashMap<ReplicaId, String> = members.iter().filter(|j| **j != sender).map(|j| (ReplicaId::new(*j), format!("h{}:1", j))).collect();
+    let cfg = partitioned_config(sender, peers.values().cloned().collect(), c.rf, c.vnodes);
+    let router = GossipRouter::new(ring.clone(), ReplicaId::new(sender), peers, true);
+    let mut gs = GossipState::with_router(cfg, router);
+    let batch = batch_keys(std::slice::from_ref(&c.batch), u16::MAX).pop().unwrap_or_default();
+    let deltas: Vec<ReplicationDelta> = batch.iter().map(|(k, t)| mk_delta(k, *t, sender, &before, &members)).collect();
+    let (tx, rx) = std::sync::mpsc::channel::<()>();
+    let r2 = ring.clone();
+    let joiner = c.joiner;
+    let writer = std::thread::spawn(move || {
+        let mut g = r2.write().expect("ring lock");
+        let _ = tx.send(());
+        std::thread::sleep(std::time::Duration::from_millis(15));
+        g.add_node(ReplicaId::new(joiner));
+    });
+    let _ = rx.recv();
+    gs.queue_deltas(deltas);
+    let out = gs.drain_outbound();
+    let _ = writer.join();
+    let got = outbound_deliveries(&out, sender, &members)?;
+    let want_before = expected_deliveries(&before, sender, &batch);
+    let want_after = expected_deliveries(&after, sender, &batch);
+    if got != want_before && got != want_after {
+        return Err(format!(
+            "membership {:?} vnodes {} rf {} sender {}: a batch of {} deltas queued while node {} was joining (ring write-locked) was routed neither by the ring before nor by the ring after the join.\n    before:{}\n    after:{}\n    queued:{}",
+            ids,
+            c.vnodes,
+            c.rf,
+            sender,
+            batch.len(),
+            c.joiner,
+            show_deliveries(&want_before),
+            show_deliveries(&want_after),
+            show_deliveries(&got)
+        ));
+    }
+    ctx.add_evaluations(batch.len() as u64);
+    if ids.len() >= 3 && c.rf > 0 && c.rf < ids.len() {
+        ctx.nontrivial(&(ids, c.vnodes, c.rf, c.joiner, c.batch.clone()));
+    }
+    Ok(())
+}
+
+// ---------------------------------------------------------------------------------------
 // (5) the production gossip server (receiving side)
 // ---------------------------------------------------------------------------------------
 
@@ -1761,6 +1835,26 @@ fn main() {
                 })
         },
         check_manager_case,
+    );
+
+    s.describe_check(
+        "route_during_join",
+        "a batch is queued (GossipState::queue_deltas) while another thread holds the ring's write lock for a joining node: the drained messages must equal get_replicas(key) minus sender under the ring before or after the join — a consumed batch is never handed to nobody",
+    );
+    s.run_cases(
+        "route_during_join",
+        s.scale(60, 2_000),
+        || {
+            (
+                membership(8),
+                prop_oneof![1 => Just(1u32), 2 => 2u32..=50, 1 => Just(150u32)],
+                1usize..=4,
+                id_strategy(),
+                proptest::collection::vec(any::<u16>(), 1..30),
+            )
+                .prop_map(|(ids, vnodes, rf, joiner, batch)| LockedCase { ids, vnodes, rf, joiner, batch })
+        },
+        check_locked_case,
     );
 
     s.describe_check(
